@@ -40,11 +40,16 @@ pub struct Case {
     pub net_seed: u64,
     pub doc_seed: u64,
     pub script: Vec<Step>,
+    /// the client is configured without a TACT HTTPS / HTTP endpoint (empty URL): the hop is not permitted
+    #[serde(default)]
+    pub no_https: bool,
+    #[serde(default)]
+    pub no_http: bool,
 }
 
 // every 5xx is a transient server failure and every 4xx other than 429 a definitive refusal, not only the common codes
 const HTTP_BEHAVIOURS: [&str; 24] = ["ok", "500", "502", "503", "504", "501", "507", "521", "599", "429", "429ra", "400", "403", "404", "401", "410", "418", "malformed200", "empty200", "refused", "reset", "stall", "body_reset", "body_stall"];
-const TCP_BEHAVIOURS: [&str; 10] = ["mime_ok", "mime_ok_data", "v2_ok", "v2_blank", "malformed", "refused", "close_before", "close_mid", "reset_mid", "stall"];
+const TCP_BEHAVIOURS: [&str; 11] = ["mime_ok", "mime_ok_data", "v2_ok", "v2_blank", "malformed", "refused", "close_before", "close_mid", "reset_mid", "stall", "mime_bad_checksum"];
 const SEGS: [&str; 5] = ["whole", "bytes1", "random", "blank", "tokens"];
 
 fn seg_of(s: &str) -> SegPolicy {
@@ -57,9 +62,10 @@ fn seg_of(s: &str) -> SegPolicy {
     }
 }
 
-const RIBBIT_TTL_S: u64 = 300;
-const CDN_TTL_S: u64 = 3600;
-const CONFIG_TTL_S: u64 = 1800;
+// deliberately NOT the shipped defaults (300 / 3600 / 1800 s): a client that ignores its configuration shows
+const RIBBIT_TTL_S: u64 = 200;
+const CDN_TTL_S: u64 = 2000;
+const CONFIG_TTL_S: u64 = 900;
 
 fn ttl_of(endpoint: &str) -> u64 {
     if endpoint.contains("versions") || endpoint.contains("bgdl") {
@@ -89,6 +95,11 @@ fn gen_doc(seed: u64, variant: u64) -> String {
     }
     s.push_str(&format!("## seqn = {}\n", 1000 + r.below(100_000)));
     s
+}
+
+/// Data rows of a generated document: every line after the header that is not a '## ' comment, split at '|'.
+fn plain_rows(doc: &str) -> Vec<Vec<String>> {
+    doc.lines().skip(1).filter(|l| !l.starts_with("##") && !l.trim().is_empty()).map(|l| l.split('|').map(str::to_string).collect()).collect()
 }
 
 fn mime_wrap(bpsv: &str, disposition: &str) -> Vec<u8> {
@@ -216,6 +227,8 @@ impl Scenario for Failover {
             net_seed: rng.next_u64(),
             doc_seed: rng.next_u64(),
             script,
+            no_https: rng.chance(1, 10),
+            no_http: rng.chance(1, 10),
         }
     }
 
@@ -284,6 +297,15 @@ fn tcp_bytes(b: &str, doc: &str) -> Vec<u8> {
             lines.concat().into_bytes()
         }
         "close_mid" | "reset_mid" => mime_wrap(doc, "version"),
+        "mime_bad_checksum" => {
+            // a complete V1 response whose checksum line does not match the message (one hex digit changed)
+            let mut v = mime_wrap(doc, "version");
+            let n = v.len();
+            if n > 10 {
+                v[n - 10] = if v[n - 10] == b'0' { b'1' } else { b'0' };
+            }
+            v
+        }
         "malformed" => b"\xff\xfe not a response at all \x00\x01\n".to_vec(),
         _ => Vec::new(),
     }
@@ -380,6 +402,9 @@ fn install(net: &Network, b: &Arc<std::sync::Mutex<Behaviours>>, docs: [String; 
                         if name == "malformed" {
                             net3.count("fault:malformed_body");
                         }
+                        if name == "mime_bad_checksum" {
+                            net3.count("fault:wrong_checksum");
+                        }
                         let _ = end.write_all(&bytes).await;
                         let _ = end.shutdown().await;
                     }
@@ -419,8 +444,15 @@ async fn run(case: &Case, ctx: &mut Ctx) -> Option<Violation> {
                         }
                         Ok((o2, _)) => {
                             ctx.count("metamorphic_reruns");
-                            if o2 != outcomes {
-                                let idx = o2.iter().zip(outcomes.iter()).position(|(a, b)| a != b).unwrap_or(0);
+                            // what must not depend on the segmentation is success/failure and the document; the
+                            // TEXT of an error may legitimately mention byte counts
+                            let same = |a: &Outcome, b: &Outcome| match (a, b) {
+                                (Outcome::Ok(x), Outcome::Ok(y)) => x == y,
+                                (Outcome::Err(_), Outcome::Err(_)) | (Outcome::Other, Outcome::Other) => true,
+                                _ => false,
+                            };
+                            if o2.len() != outcomes.len() || !o2.iter().zip(outcomes.iter()).all(|(a, b)| same(a, b)) {
+                                let idx = o2.iter().zip(outcomes.iter()).position(|(a, b)| !same(a, b)).unwrap_or(0);
                                 viol = Some(Violation::new(
                                     "C13.segmentation_independent",
                                     "segmentation_dependent",
@@ -460,8 +492,8 @@ async fn run_script(case: &Case, seg: &str, docs: &[String; 3], ctx: &mut Ctx, v
     let cache_dir = ctx.root.join(format!("pcache{variant}"));
     let mk_client = || -> Result<RibbitTactClient, String> {
         let cfg = ClientConfig {
-            tact_https_url: "https://sim-https.test".into(),
-            tact_http_url: "http://sim-http.test".into(),
+            tact_https_url: if case.no_https { String::new() } else { "https://sim-https.test".into() },
+            tact_http_url: if case.no_http { String::new() } else { "http://sim-http.test".into() },
             ribbit_url: "tcp://sim-tcp.test:1119".into(),
             cache_config: CacheConfig {
                 cache_dir: if case.cache == "disk" { Some(cache_dir.clone()) } else { None },
@@ -482,7 +514,7 @@ async fn run_script(case: &Case, seg: &str, docs: &[String; 3], ctx: &mut Ctx, v
     };
     let t_start = tokio::time::Instant::now();
     let now_ms = || t_start.elapsed().as_millis() as u64;
-    let chain: Vec<&str> = if tcp_only(&case.endpoint) { vec!["tcp"] } else { vec!["https", "http", "tcp"] };
+    let chain: Vec<&str> = if tcp_only(&case.endpoint) { vec!["tcp"] } else { ["https", "http", "tcp"].into_iter().filter(|h| !((*h == "https" && case.no_https) || (*h == "http" && case.no_http))).collect() };
     let ttl_ms = ttl_of(&case.endpoint) * 1000;
     // model of the cache: (document view, stored at ms, by which client generation)
     let mut cached: Option<(String, u64, u32)> = None;
@@ -556,6 +588,24 @@ async fn run_script(case: &Case, seg: &str, docs: &[String; 3], ctx: &mut Ctx, v
                     .filter(|e| e.what.starts_with("GET") || e.what.starts_with("connect"))
                     .map(|e| if e.endpoint.starts_with("https://") { "https" } else if e.endpoint.starts_with("http://") { "http" } else { "tcp" })
                     .collect();
+                // a hop may be tried more than once before the chain moves on (in-hop retries are not excluded by
+                // the property): consecutive contacts of the same hop count as one
+                let mut contacted = contacted;
+                contacted.dedup();
+                // A6: what was asked for must be what the caller asked for
+                let tail: Vec<&str> = case.endpoint.rsplit('/').take(2).collect();
+                for e in &log {
+                    let wrong = if let Some(path) = e.what.strip_prefix("GET ") {
+                        !tail.iter().all(|seg| path.contains(seg))
+                    } else if let Some(line) = e.what.strip_prefix("request ") {
+                        line.trim_matches('"') != case.endpoint
+                    } else {
+                        false
+                    };
+                    if wrong {
+                        viol!("wrong_request_sent", "", format!("step #{i}: query({:?}) sent '{}' to {}", case.endpoint, e.what, e.endpoint));
+                    }
+                }
                 if contacted.contains(&"tcp") {
                     reached_tcp = true;
                 }
@@ -609,55 +659,77 @@ async fn run_script(case: &Case, seg: &str, docs: &[String; 3], ctx: &mut Ctx, v
                 }
 
                 // ---- decision table ----
-                let mut expected_contacts: Vec<&str> = Vec::new();
-                let mut verdict: Option<Result<String, ()>> = None; // Ok(view) | Err
-                let mut tcp_partial_possible = false;
-                for ep in &chain {
-                    expected_contacts.push(ep);
-                    match *ep {
-                        "https" | "http" => {
-                            let (b, doc) = if *ep == "https" { (&bh, &docs[0]) } else { (&bp, &docs[1]) };
-                            let body = http_body(b, doc);
-                            let parsed = <BpsvDocument as CascFormat>::parse(&body).ok();
-                            match http_class(b, parsed.is_some()) {
-                                Class::Answer => {
-                                    verdict = Some(Ok(parsed.map(|d| view(&d)).unwrap_or_default()));
-                                    break;
+                // A 200 whose body does not parse is "not a well-formed answer"; whether the chain then stops
+                // (a refusal) or moves on (a failure) is not fixed by the property: both readings are accepted.
+                let decide = |malformed_is_transient: bool| -> (Vec<&str>, Result<String, ()>, bool, Option<usize>) {
+                    let mut expected_contacts: Vec<&str> = Vec::new();
+                    let mut verdict: Option<Result<String, ()>> = None; // Ok(view) | Err
+                    let mut tcp_partial_possible = false;
+                    let mut answered_by: Option<usize> = None;
+                    for ep in &chain {
+                        expected_contacts.push(ep);
+                        match *ep {
+                            "https" | "http" => {
+                                let (b, doc, idx) = if *ep == "https" { (&bh, &docs[0], 0) } else { (&bp, &docs[1], 1) };
+                                let body = http_body(b, doc);
+                                let parsed = <BpsvDocument as CascFormat>::parse(&body).ok();
+                                let is_200 = matches!(b.as_str(), "ok" | "malformed200" | "empty200");
+                                match http_class(b, parsed.is_some()) {
+                                    Class::Answer => {
+                                        verdict = Some(Ok(parsed.map(|d| view(&d)).unwrap_or_default()));
+                                        answered_by = Some(idx);
+                                        break;
+                                    }
+                                    Class::Definitive if is_200 && malformed_is_transient => {}
+                                    Class::Definitive => {
+                                        verdict = Some(Err(()));
+                                        break;
+                                    }
+                                    Class::Transient => {}
                                 }
-                                Class::Definitive => {
-                                    verdict = Some(Err(()));
-                                    break;
-                                }
-                                Class::Transient => {}
                             }
-                        }
-                        _ => {
-                            let bytes = tcp_bytes(&bt, &docs[2]);
-                            match bt.as_str() {
-                                "mime_ok" | "mime_ok_data" => {
-                                    let d = cascette_protocol::mime_parser::parse_v1_mime_to_bpsv(&bytes).ok();
-                                    verdict = Some(d.map(|d| view(&d)).ok_or(()));
+                            _ => {
+                                let bytes = tcp_bytes(&bt, &docs[2]);
+                                match bt.as_str() {
+                                    "mime_ok" | "mime_ok_data" => {
+                                        let d = cascette_protocol::mime_parser::parse_v1_mime_to_bpsv(&bytes).ok();
+                                        verdict = Some(d.map(|d| view(&d)).ok_or(()));
+                                        answered_by = Some(2);
+                                    }
+                                    "v2_ok" | "v2_blank" => {
+                                        let d = <BpsvDocument as CascFormat>::parse(&bytes).ok();
+                                        verdict = Some(d.map(|d| view(&d)).ok_or(()));
+                                        answered_by = Some(2);
+                                    }
+                                    "close_mid" => {
+                                        tcp_partial_possible = true;
+                                        verdict = Some(Err(()));
+                                    }
+                                    _ => verdict = Some(Err(())),
                                 }
-                                "v2_ok" | "v2_blank" => {
-                                    let d = <BpsvDocument as CascFormat>::parse(&bytes).ok();
-                                    verdict = Some(d.map(|d| view(&d)).ok_or(()));
-                                }
-                                "close_mid" => {
-                                    tcp_partial_possible = true;
-                                    verdict = Some(Err(()));
-                                }
-                                _ => verdict = Some(Err(())),
                             }
                         }
                     }
-                }
-                let verdict = verdict.unwrap_or(Err(()));
+                    (expected_contacts, verdict.unwrap_or(Err(())), tcp_partial_possible, answered_by)
+                };
+                let strict = decide(false);
+                let lenient = decide(true);
+                let (expected_contacts, verdict, tcp_partial_possible, answered_by) = if contacted == strict.0 { strict } else if contacted == lenient.0 { lenient } else { strict };
                 if contacted != expected_contacts {
                     let class = if contacted.len() > expected_contacts.len() { "fallthrough_after_stop" } else if contacted.len() < expected_contacts.len() { "stopped_before_fallback" } else { "wrong_order" };
                     match class {
                         "fallthrough_after_stop" => viol!("fallthrough_after_stop", "", format!("step #{i}: behaviours https={bh} http={bp} tcp={bt}: contacted {contacted:?}, the decision table says {expected_contacts:?}")),
                         "stopped_before_fallback" => viol!("stopped_before_fallback", "", format!("step #{i}: behaviours https={bh} http={bp} tcp={bt}: contacted {contacted:?}, the decision table says {expected_contacts:?}")),
                         _ => viol!("wrong_order", "", format!("step #{i}: behaviours https={bh} http={bp} tcp={bt}: contacted {contacted:?}, the decision table says {expected_contacts:?}")),
+                    }
+                }
+                // A7: the rows the caller gets are the rows the answering endpoint was given to serve - judged
+                // against the GENERATED text with a ten-line splitter, not against the parser under test
+                if let (Ok(d), Some(idx)) = (&res, answered_by) {
+                    let want = plain_rows(&docs[idx]);
+                    let got: Vec<Vec<String>> = d.rows().iter().map(|r| r.raw_values().to_vec()).collect();
+                    if got != want {
+                        viol!("wrong_document", ",vs=generated_text", format!("step #{i}: behaviours https={bh} http={bp} tcp={bt}: the query returned rows {got:?}, the answering endpoint served {want:?}"));
                     }
                 }
                 if contacted.len() > 1 {
